@@ -9,7 +9,16 @@ use tokio_stream::wrappers::WatchStream;
 pub use crate::node::NodeMembership;
 pub use crate::nodes_selector::{start_node_selector, NodeCycler};
 use crate::nodes_selector::NodeSelectorHandle;
-use crate::{ClusterStatistics, MembershipChange, NodeId, Nodes, RpcNetwork};
+use crate::{
+    Clock,
+    ClusterMember,
+    ClusterStatistics,
+    DatacakeHandle,
+    MembershipChange,
+    NodeId,
+    Nodes,
+    RpcNetwork,
+};
 
 /// Public wrapper around the crate-private `NodeSelectorHandle::set_nodes`.
 pub async fn set_nodes(
@@ -38,4 +47,31 @@ pub fn spawn_membership_watcher(
         tx,
     ));
     (rx, network, statistics)
+}
+
+/// A [DatacakeHandle] over caller supplied parts (no chitchat node behind it), so that
+/// extensions can be driven by a harness controlled stream of membership changes.
+pub fn handle_from_parts(
+    me: ClusterMember,
+    clock: Clock,
+    network: RpcNetwork,
+    selector: NodeSelectorHandle,
+    membership_changes: watch::Receiver<MembershipChange>,
+) -> DatacakeHandle {
+    DatacakeHandle {
+        me: Cow::Owned(me),
+        clock,
+        network,
+        selector,
+        statistics: ClusterStatistics::default(),
+        membership_changes,
+    }
+}
+
+/// The addresses the network currently holds a client for (every address handed to
+/// `get_or_connect` / `connect` and not disconnected since), sorted.
+pub fn connected_addrs(network: &RpcNetwork) -> Vec<std::net::SocketAddr> {
+    let mut addrs = network.verif_addrs();
+    addrs.sort();
+    addrs
 }
